@@ -289,8 +289,7 @@ def solver_sweep(rep, tier, enforced):
 
     def build():
         jobs = jobs_for(tier, rng, True)
-        with mp.get_context("fork").Pool(common.NCPU) as pool:
-            return pool.map(solve, jobs, chunksize=2)
+        return common.pmap_chunked(solve, jobs, chunk=2)
     traces = corpus.cached(f"solver_{tier}_{common.seed()}", build)
     ok = [t for t in traces if not t["error"]]
     for t in traces:
